@@ -1,6 +1,58 @@
-(* Runner for property C08: wire arguments -> model -> wire result. Filled in by the C08 model. *)
+(* Runner for property C08: wire arguments -> Digest/Envelope.v -> wire result.
+   The parameters of the model are instantiated from the case itself:
+     doc  := bytes      a short token standing for the canonical bytes of the parsed document as the
+                        implementation's c14n printed them (distinct bytes <-> distinct tokens;
+                        the bytes themselves are cross-checked against an independent printer by
+                        the check; feeding 10 kB per case through the extracted wire parser is
+                        too slow)
+     canon := identity
+     H    := the finite table given on the wire ( ( x<token> x<hash> ) ... ): sha256 of the
+             bytes the token stands for, computed by the check (hashlib / the harness's own
+             crypto/sha256) - not by the implementation's dsig
+     structural := the boolean on the wire (did every Validate method of the parts pass)
+     calc_doc := the observed result of the document's own calculation
+   ops:  validate  <structural 0|1> <dig: ( ) | ( xalg xval )> x<doc> <table>
+         calculate <dig> x<doc> <calculated: ( ) | ( x<doc'> )> <table>  *)
 From Coq Require Import ZArith List String Bool.
-From Verif Require Import Base.Wire.
+From Verif Require Import Base.Wire Digest.Envelope.
 Import ListNotations.
 
-Definition run_c08 (args : list V) : list V := [verr "not-implemented"].
+Definition H_tbl (tbl : list V) (b : bytes) : bytes :=
+  match find (fun p => eqb_bytes (vs_ (nth 0 (vl p) (VS []))) b) tbl with
+  | Some p => vs_ (nth 1 (vl p) (VS []))
+  | None => []
+  end.
+
+Definition dig_in (v : V) : option digestv :=
+  match v with VL [VS a; VS x] => Some (mkDig a x) | _ => None end.
+Definition dig_out (d : option digestv) : V :=
+  match d with Some d => VL [VS (alg d); VS (val d)] | None => VL [] end.
+
+Definition verdict_out (r : verdict) : V :=
+  match r with
+  | Valid => VS (bs "ok")
+  | ErrValidation => verr "validation"
+  | ErrDigest => verr "digest"
+  end.
+
+Definition run_c08 (args : list V) : list V :=
+  match args with
+  | o :: rest =>
+    let op := opname o in
+    let a1 := nth 0 rest (VI 0) in
+    let a2 := nth 1 rest (VI 0) in
+    let a3 := nth 2 rest (VI 0) in
+    let a4 := nth 3 rest (VI 0) in
+    if String.eqb op "validate" then
+      let e := mkEnv (vbool a1) (dig_in a2) (vs_ a3) in
+      [verdict_out (validate bytes bool (fun d => d) (H_tbl (vl a4)) (fun e => e_rest e) e)]
+    else if String.eqb op "calculate" then
+      let e := mkEnv true (dig_in a1) (vs_ a2) in
+      let calc := fun _ : bytes => match a3 with VL [VS d'] => Some d' | _ => None end in
+      match calculate bytes bool (fun d => d) (H_tbl (vl a4)) calc e with
+      | Some e1 => [VS (bs "ok"); dig_out (e_dig e1); VS (e_doc e1)]
+      | None => [verr "calculation"]
+      end
+    else [verr "unknown-c08-op"]
+  | [] => [verr "unknown-c08-op"]
+  end.
